@@ -640,10 +640,12 @@ def worker(mode: str, k: int, n: int, seed: int, tier: str) -> None:
             out["wf_contr"] = run_model(["wfcontr"])[0]
             lo = run_model(["litsok " + " ".join(x) for x in UT if x is not None])
             nc = run_model(["nocontr " + " ".join(x) for x in UT if x is not None])
+            cv = run_model(["covt " + " ".join(x) for x in UT if x is not None])
             fr2 = run_model(["frag2 " + " ".join(x) for x in UT if x is not None])
             out["in_frag2"] = sum(1 for x in fr2 if x == "true")
             out["in_frag2_lits_ok"] = sum(1 for x, y in zip(fr2, lo) if x == "true" and y == "true")
             out["in_frag2_no_contr"] = sum(1 for x, y in zip(fr2, nc) if x == "true" and y == "true")
+            out["in_frag2_x2_x3"] = sum(1 for x, y, z in zip(fr2, lo, cv) if x == "true" and y == "true" and z == "true")
             out["not_in_frag2"] = [core[i] for i, x in zip([i for i, t in enumerate(UT) if t is not None], fr2) if x != "true"]
             fr = run_model(["frag1 " + " ".join(x) for x in UT if x is not None])
             out["in_frag1"] = sum(1 for x in fr if x == "true")
@@ -1121,6 +1123,7 @@ def run(ctx: Any) -> None:
         "simplified-union theorems) = literals of bool/enum whose value is not a member or whose class has < 2 distinct members; "
         "the numbers of universe types inside are reported (universe_types_in_fragment_*); the boolean hypotheses wf_ct, wf_gen, "
         "wf_contr, chains_ok are evaluated on the real class table by the extracted code",
+        "family X3 (excluded from meet_lower_F2) = types mentioning a class with an invariant or contravariant parameter",
         "F2 theorems hold for the kinds is_subtype(...) without ignore_type_params and is_proper_subtype(ignore_promotions=True); "
         "is_proper_subtype with promotions is covered on F1 only",
         "not modelled: protocols/structural subtyping (cases that reach is_protocol_implementation are counted and skipped), "
@@ -1175,6 +1178,7 @@ def run(ctx: Any) -> None:
             ctx.cov["universe_types_in_fragment_F2"] = r.get("in_frag2")
             ctx.cov["universe_types_in_F2_outside_family_X2"] = r.get("in_frag2_lits_ok")
             ctx.cov["universe_types_in_F2_outside_family_X1"] = r.get("in_frag2_no_contr")
+            ctx.cov["universe_types_in_F2_outside_families_X2_X3"] = r.get("in_frag2_x2_x3")
             ctx.cov["class_table_wf_contr"] = r.get("wf_contr")
             if r.get("wf_contr") != "true":
                 ctx.broke("C", "wf_contr", "the extracted predicate wf_contr rejects the real class table")
